@@ -127,6 +127,20 @@ def run(ctx):
     impl2 = C.run_impl(dec_cases, ctx.wd, "dec")
     model2 = C.run_model(dec_cases, ctx.wd, "dec")
     core.compare(ctx, "bytes(a)-decode", dec_cases, impl2, model2)
+    # the same inputs through a reader that returns 1, 2, 3 or 7 bytes per call (a reader may
+    # always return less than it was asked for): the outcome must not depend on it
+    pidx = [i for i, b in enumerate(dec_inputs) if len(b) <= 2000]
+    pidx = pidx if len(pidx) <= ctx.scale(3000, 30000) else rnd.sample(pidx, ctx.scale(3000, 30000))
+    pcases = ["DECP %d %s" % (rnd.choice([1, 2, 3, 7]), gen.hx(dec_inputs[i])) for i in pidx]
+    pi_ = C.run_impl(pcases, ctx.wd, "decp")
+    pm_ = C.run_model(pcases, ctx.wd, "decp")
+    core.compare(ctx, "bytes(a)-decode-piecewise-reader", pcases, pi_, pm_)
+    for i, c, a in zip(pidx, pcases, pi_):
+        if a != impl2[i]:
+            ctx.fail("oracle", "decoding depends on how the reader hands out the bytes: whole `%s` / in pieces `%s`" % (impl2[i][:200], a[:200]),
+                     dict(kind="bytes", case=c[:4000], observed=a[:500], expected=impl2[i][:500]))
+            break
+    ctx.count("dec_piecewise", len(pcases))
     # oracle: the property itself on the implementation
     reenc = []
     nontriv = set()
